@@ -130,14 +130,20 @@ class Table:
 
         def wsgi_endpoint(i):
             def app(environ, start_response):
-                rec.hit = (i, environ.get("PATH_PARAMS"), wsgi.Request(environ).path_params)
+                pp = environ.get("PATH_PARAMS")
+                rec.hit = (i, dict(pp) if isinstance(pp, dict) else pp, dict(wsgi.Request(environ).path_params))
+                if isinstance(pp, dict):
+                    pp["scribbled-by-endpoint"] = i  # the parameters belong to this request: a later request must not see this
                 start_response("200 OK", [("X-Route", str(i))])
                 return [b"ok"]
             return app
 
         def asgi_endpoint(i):
             async def app(scope, receive, send):
-                rec.hit = (i, scope.get("path_params"), asgi.Request(scope, receive, send).path_params)
+                pp = scope.get("path_params")
+                rec.hit = (i, dict(pp) if isinstance(pp, dict) else pp, dict(asgi.Request(scope, receive, send).path_params))
+                if isinstance(pp, dict):
+                    pp["scribbled-by-endpoint"] = i
                 await send({"type": "http.response.start", "status": 200, "headers": []})
                 await send({"type": "http.response.body", "body": b"ok"})
             return app
